@@ -132,6 +132,12 @@ var c20Runes = []struct {
 	letterDigitHyphen, isPc bool
 }{
 	{'é', true, false}, {'日', true, false}, {'Ω', true, false}, {'٣', true, false} /* arabic-indic digit */, {'‐', true, false}, /* U+2010 hyphen */
+	{'\u00ad', true, false} /* soft hyphen */, {'\u058a', true, false} /* armenian hyphen */, {'\u2011', true, false} /* non-breaking hyphen */,
+	{'\u30fb', true, false} /* katakana middle dot: Hyphen property */, {'\uff65', true, false} /* halfwidth katakana middle dot: Hyphen property */, {'\uff0d', true, false}, /* fullwidth hyphen-minus */
+	// dashes that are not hyphens
+	{'\u2013', false, false} /* en dash */, {'\u2014', false, false} /* em dash */, {'\u2012', false, false} /* figure dash */, {'\u05be', false, false} /* maqaf */, {'\u301c', false, false}, /* wave dash */
+	{'\u2212', false, false} /* minus sign */, {'\ufe33', false, true} /* vertical low line, Pc */, {'\uff3f', false, true}, /* fullwidth low line, Pc */
+	{'\u0301', false, false} /* combining acute: a mark, not a letter */, {'\u00b2', false, false} /* superscript two: No, not Nd */, {'\u2160', false, false}, /* roman numeral one: Nl */
 	{'‿', false, true} /* U+203F undertie, Pc */, {'€', false, false}, {' ', false, false}, {'🙂', false, false}, {'·', false, false},
 }
 
@@ -508,7 +514,7 @@ func init() {
 			runRev(idx)
 			pre := []string{"", "/", "./", ".", "..", "a/", "//"}[r.Intn(7)]
 			dir := []string{".datamon", ".conflicts", ".checkpoints", ".datamonx", "conflicts", ".conflict", ".checkpoints2"}[r.Intn(7)]
-			suf := []string{"", "/", "/x", "/x/y", "x", ".yaml"}[r.Intn(6)]
+			suf := []string{"", "/", "/x", "/x/y", "x", ".yaml", "/a\nb", "\n", "/\n", "/x\r\n", "/é/日"}[r.Intn(11)]
 			runGen(pre + dir + suf)
 			runValid(c20Name(r, r.Chance(1, 3)), r.Bool())
 		}
